@@ -73,6 +73,10 @@ CHECKS = {
             "bounded exhaustive enumeration of ranges / subsets / batches / corruptions against a naive reference Merkle tree (x/crypto blake2b), on both CPU paths",
             "Optimised roots (SumLeaf/SumPair/SumLeaves/SumNodes on every single-bit input, sector/reader/meta roots on 14 structured sector contents and every chunking) equal the naive tree on the AVX2 and generic paths; for all (start,end) over the bit-boundary set in a sector, all (n,start,end) with n<=N, all append batches and every non-empty freed subset (all permutations up to size 3) the builder's proof is accepted with the reference old/new roots, has the advertised size, and every single-element corruption (proof hash, datum, index, root, length where fixed) is rejected.",
             "Structured sector contents, not all contents; sizes above the bounds not covered. Fixed: VerifyDiffProof/VerifyFreeSectorsProof accepted a valid proof with a wrong freed index (repo commit cc2b625).", "3/C16"),
+    "C17": ("E1", "model_checking",
+            "explicit-state breadth-first exploration of constructor-call sequences from NewContract over a boundary-relative move alphabet, every constructed contract / revision / renewal validated by the real consensus code on a chain, against a math/big reference; exhaustive dense enumeration of v1 payout targets",
+            "For 491 grid points (typical price table + all single and pairwise deviations to {0,1,2^70}; fundings 1/0, exact, exact+-1, typical, 2^118; proof-height slack, tip offsets, miner fees) every sequence of <=3 (thorough 4) constructor calls (append, free, sector roots, fund, replenish, PayWithContract, renew, refresh partial/full; ~53 boundary-relative moves evaluated at every node, one representative per move class expanded) satisfies: request Validate verdict equals the reference; revisions conserve the total, charge exactly the reported usage, risk exactly the reported collateral, never raise the missed host value, leave total collateral unchanged, fail cleanly (input untouched) exactly when funds are insufficient; renewals/refreshes split the old value exactly into final outputs + rollover, rollover <= new contract cost, renter cost + host cost + rollover = new contract value + tax + miner fee; every result is accepted by ValidateBlock/ValidateV2Transaction (formation and expanding renewals are applied on chain) and every off-by-one negative control is rejected. v1: every payout target 0..200000 plus 1587 boundary values through rhp/v2 and rhp/v3 Prepare*/Calculate*/cost functions satisfies the tax equation and ValidateTransaction; PayByContract sequences keep both sums.",
+            "Domain restricted to parameter products fitting 128 bits (outside, the cost functions panic on overflow by design; counted, not asserted). Only one representative per move class produces successors (boundary variants are evaluated at every node but not expanded). Observed outside the property: rhp/v4 renew/refresh/form request Validate methods panic on Currency overflow for a renter-chosen collateral of 2^128-1 (sum computed before the bound check); revision request Validate methods have no height guard.", "3/C17"),
     "C18": ("E1", "model_checking",
             "exhaustive enumeration of v2 transaction sets over every accumulator shape plus explicit-state exploration; every block round-tripped through the real multiproof/outline codecs",
             "For every accumulator size up to N and every subset of <=3 live leaves (all subsets for <=10) spread over 1-3 transactions (+ephemeral chains), and for every accepted block of a union-alphabet exploration (storage-proof chain-index elements, ephemeral parents, duplicate leaves), V2TransactionsMultiproof / V2BlockData / V2Block encode->decode restores every proof bit-for-bit with unchanged ID, commitment and validity; for every block with <=4 transactions every omitted subset x every permutation of every candidate sub-pool completes to exactly the original block or reports exactly the missing hashes; outline codec round trip.",
